@@ -4,7 +4,7 @@ from . import symcommon
 
 
 def run(tier):
-    run = Run("C06", tier, "exploration")
+    run = Run("C06", tier, "model_checking")
     d = scratch("c06")
     from . import groundstate
 
